@@ -88,6 +88,10 @@ def setup():
     import dns.entropy
 
     _d = dns
+    # ids the library draws for itself must not come from the OS entropy pool
+    import dns.entropy
+
+    dns.entropy.random_16 = lambda: 0x2A2A
     for mod in (dns.query, dns.asyncquery, dns.message, dns.renderer):
         mod.time = VT
     dns.query.socket_factory = netsim.fake_socket_factory
